@@ -359,7 +359,7 @@ fn is_numeric(l: Layer) -> bool {
 }
 
 /// RSSL program for one declaration order; None = not expressible (SKIP)
-fn program(cands: &[Cand], args: &[ETy]) -> Option<String> {
+fn program(cands: &[Cand], args: &[ETy], with_defs: bool) -> Option<String> {
     let mut s = String::new();
     let mut others: Vec<u32> = Vec::new();
     let mut enums: Vec<u32> = Vec::new();
@@ -419,6 +419,7 @@ fn program(cands: &[Cand], args: &[ETy]) -> Option<String> {
             _ => return None,
         }
     }
+    let mut defs: Vec<String> = Vec::new();
     for c in cands {
         if c.non_default > c.params.len() {
             return None;
@@ -444,6 +445,14 @@ fn program(cands: &[Cand], args: &[ETy]) -> Option<String> {
             ps.push(d);
         }
         s.push_str(&format!("R{} f({});\n", c.id, ps.join(", ")));
+        defs.push(format!("R{} f({}) {{ R{} r; return r; }}\n", c.id, ps.join(", "), c.id));
+    }
+    if with_defs {
+        // every candidate is declared above and *defined* here in the reverse order: a definition must attach to
+        // its declaration (scopes.rs check_existing_functions_in_scope) and neither duplicate nor reorder the set
+        for d in defs.iter().rev() {
+            s.push_str(d);
+        }
     }
     s.push_str("void main() {\n");
     s.push_str(&locals);
@@ -690,8 +699,8 @@ impl Runner {
     }
 
     /// run every permutation of the candidate set (capped for sets larger than 5)
-    fn group(&mut self, sorted: &[Cand], args: &[ETy]) -> &Group {
-        let key = format!("{}\t{}", show_cands(sorted), show_args(args));
+    fn group(&mut self, sorted: &[Cand], args: &[ETy], with_defs: bool) -> &Group {
+        let key = format!("{}\t{}\t{}", show_cands(sorted), show_args(args), with_defs);
         if !self.cache.contains_key(&key) {
             let judged = judge_set(&mut self.real, sorted, args);
             let mut verdicts = Vec::new();
@@ -699,7 +708,7 @@ impl Runner {
             let perms = if sorted.len() <= 5 { permutations(sorted.len()) } else { vec![(0..sorted.len()).collect(), (0..sorted.len()).rev().collect()] };
             for p in perms {
                 let order: Vec<Cand> = p.iter().map(|i| sorted[*i].clone()).collect();
-                let Some(src) = program(&order, args) else {
+                let Some(src) = program(&order, args, with_defs) else {
                     expressible = false;
                     break;
                 };
@@ -717,12 +726,17 @@ impl Runner {
     }
 
     /// one request (one declaration order); the oracle looks at the whole permutation group
-    fn resolve_case(&mut self, cands: &[Cand], args: &[ETy], out: &mut Out) {
-        let req = format!("C16.resolve\t{}\t{}", show_cands(cands), show_args(args));
+    fn resolve_case(&mut self, cands: &[Cand], args: &[ETy], with_defs: bool, out: &mut Out) {
+        let req = format!(
+            "C16.resolve\t{}\t{}{}",
+            show_cands(cands),
+            show_args(args),
+            if with_defs { "\tD" } else { "" }
+        );
         let mut sorted = cands.to_vec();
         sorted.sort();
         let ids: Vec<u32> = cands.iter().map(|c| c.id).collect();
-        let g = self.group(&sorted, args);
+        let g = self.group(&sorted, args, with_defs);
         if !g.expressible || cands.is_empty() {
             out.case(&req, "-", "SKIP:not expressible as an RSSL program");
             return;
@@ -772,12 +786,33 @@ impl Runner {
         self.hist.add(&format!("exact:{}", nexact));
         self.hist.add(&format!("cands:{}", cands.len()));
         self.hist.add(&format!("args:{}", args.len()));
+        for a in args {
+            self.hist.add(match (a.lvalue, a.ty.mods.0, a.ty.layer) {
+                (_, _, Layer::Scalar(S_INTLIT)) => "arg:int-literal",
+                (_, _, Layer::Scalar(S_FLOATLIT)) => "arg:float-literal",
+                (true, 0, _) => "arg:lvalue",
+                (true, _, _) => "arg:const-lvalue",
+                (false, _, _) => "arg:rvalue",
+            });
+        }
+        for c in cands {
+            for p in &c.params {
+                self.hist.add(match p.io {
+                    Io::In => "param:in",
+                    Io::Out => "param:out",
+                    Io::InOut => "param:inout",
+                });
+            }
+            if c.non_default < c.params.len() {
+                self.hist.add("cand:has-default");
+            }
+        }
     }
 
-    fn all_orders(&mut self, sorted: &[Cand], args: &[ETy], out: &mut Out) {
+    fn all_orders(&mut self, sorted: &[Cand], args: &[ETy], with_defs: bool, out: &mut Out) {
         for p in permutations(sorted.len()) {
             let order: Vec<Cand> = p.iter().map(|i| sorted[*i].clone()).collect();
-            self.resolve_case(&order, args, out);
+            self.resolve_case(&order, args, with_defs, out);
         }
     }
 
@@ -942,16 +977,29 @@ fn conv_universe(thorough: bool) -> Vec<ETy> {
 }
 
 pub fn run(args: &Args, out: &mut Out) {
+    if args.extra.first().map(|s| s.as_str()) == Some("--probe") {
+        // debugging aid: type check `----`-separated programs from a file and print the front end's answer
+        let src = std::fs::read_to_string(&args.extra[1]).unwrap_or_default();
+        for chunk in src.split("\n----\n") {
+            match guard(|| front_end_src(chunk)) {
+                Ok(Ok(_)) => println!("OK"),
+                Ok(Err(e)) => println!("ERR {}: {}", e.stage(), e.text()),
+                Err(p) => println!("PANIC {}", p),
+            }
+        }
+        return;
+    }
     let mut r = Runner::new();
     if let Some(lines) = args.request_lines() {
         for line in lines {
             let f: Vec<&str> = line.split('\t').collect();
             match f.as_slice() {
-                ["C16.resolve", cs, az] => {
+                ["C16.resolve", cs, az] | ["C16.resolve", cs, az, _] => {
+                    let with_defs = f.len() == 4 && f[3] == "D";
                     let cands: Option<Vec<Cand>> = if cs.is_empty() { Some(vec![]) } else { cs.split(';').map(parse_cand).collect() };
                     let az: Option<Vec<ETy>> = if az.is_empty() { Some(vec![]) } else { az.split(',').map(parse_ety).collect() };
                     match (cands, az) {
-                        (Some(c), Some(a)) => r.resolve_case(&c, &a, out),
+                        (Some(c), Some(a)) => r.resolve_case(&c, &a, with_defs, out),
                         _ => out.case(&line, "-", "SKIP:bad request"),
                     }
                 }
@@ -1005,16 +1053,20 @@ pub fn run(args: &Args, out: &mut Out) {
                 Cand { id: 1, non_default: 1, params: vec![params[j]] },
             ];
             for a in &arg_list {
-                r.all_orders(&set, &[*a], out);
+                r.all_orders(&set, &[*a], false, out);
             }
         }
     }
 
     // (3) random candidate sets of 2-5 overloads with 1-3 parameters: every permutation x several argument tuples
-    let n = args.n.unwrap_or(if args.thorough() { 6000 } else { 350 });
+    let n = args.n.unwrap_or(if args.thorough() { 6000 } else { 600 });
     let tuples = if args.thorough() { 6 } else { 4 };
     for _ in 0..n {
         let (cands, centre) = random_set(&mut rng, &mut hist);
+        let with_defs = rng.chance(1, 4);
+        if with_defs {
+            hist.add("set:declared-then-defined");
+        }
         for t in 0..tuples {
             let a: Vec<ETy> = if t == 0 {
                 centre.iter().map(|c| ETy { lvalue: true, ty: *c }).collect()
@@ -1032,7 +1084,7 @@ pub fn run(args: &Args, out: &mut Out) {
             } else {
                 a
             };
-            r.all_orders(&cands, &a, out);
+            r.all_orders(&cands, &a, with_defs, out);
         }
     }
     for (k, v) in &hist.0 {
